@@ -194,6 +194,45 @@ func vRunCmd(name string, fn flags.Function, args []string, in []gts.Sequence) (
 	return out, cerr
 }
 
+// vRunRaw: like vRunCmd for commands that print something other than sequences (gts query): the records go in
+// on stdin, the bytes written to stdout come back.
+func vRunRaw(name string, fn flags.Function, args []string, in []gts.Sequence) ([]byte, error) {
+	ctx := &flags.Context{Name: []string{"gts", name}, Desc: "", Args: args}
+	if vIsModel() {
+		vQueue, vQPos, vOut = in, 0, nil
+		vResetScanners()
+		err := fn(ctx)
+		text, _ := vFSRead("/dev/stdout")
+		return text, err
+	}
+	dir := vTempDir()
+	fin, err := os.Create(dir + "/in.gb")
+	if err != nil {
+		panic(err)
+	}
+	w := seqio.NewWriter(fin, seqio.GenBankFile)
+	for _, s := range in {
+		if _, err := w.WriteSeq(s); err != nil {
+			panic(err)
+		}
+	}
+	fin.Seek(0, io.SeekStart)
+	fout, err := os.Create(dir + "/out.txt")
+	if err != nil {
+		panic(err)
+	}
+	cerr := func() error {
+		oldIn, oldOut := os.Stdin, os.Stdout
+		defer func() { os.Stdin, os.Stdout = oldIn, oldOut }()
+		os.Stdin, os.Stdout = fin, fout
+		return fn(ctx)
+	}()
+	fin.Close()
+	fout.Close()
+	text, _ := os.ReadFile(dir + "/out.txt")
+	return text, cerr
+}
+
 // ---- oracle vocabulary (ranges on either strand only) --------------------------------
 
 type vAtomC struct {
